@@ -330,6 +330,7 @@ func defStartServer() {
 		&slip.FuncDoc{
 			Name: "start-server",
 			Args: []*slip.DocArg{
+				{Name: "&optional"},
 				{Name: "port-file", Type: "string", Text: "path to write the port number (ignored)."},
 				{Name: "&key"},
 				{Name: "port", Type: "fixnum", Text: "port to listen on (default 4005)."},
@@ -372,6 +373,7 @@ func defStopServer() {
 		&slip.FuncDoc{
 			Name: "stop-server",
 			Args: []*slip.DocArg{
+				{Name: "&optional"},
 				{Name: "port", Type: "fixnum", Text: "port of server to stop (default: stop the default server)."},
 			},
 			Return: "nil",
